@@ -20,6 +20,8 @@ def install(eng):
     FILTERS = [k for k in eng.contracts if k.startswith(("gwf.filtering:", "dispatch:"))]
     eng.enumerator("schedule-small-dags", ["C01", "C02", "C05", "C06"], SCHED + ["gwf.scheduling:should_run"],
                    lambda seed, focus: enum_schedule.replay(None, None, None, seed))
+    from replay import enum_stale
+    eng.enumerator("should-run-small-files", ["C01"], ["gwf.scheduling:should_run"], enum_stale.replay)
     eng.enumerator("graph-small-workflows", ["C03", "C04"], GRAPH,
                    lambda seed, focus: enum_graph.replay(None, None, None, seed))
     eng.enumerator("tracking-backend-scripts", ["C07", "C08", "C09", "C17"], BACKEND + CALLBACKS[:1],
@@ -59,11 +61,13 @@ def install(eng):
     from replay import enum_ops
     OPS = [k for k in eng.contracts if k.startswith(("gwf.backends.slurm:", "gwf.backends.sge:", "gwf.backends.lsf:",
                                                      "gwf.backends.utils:"))]
-    eng.enumerator("ops-command-lines", ["C07"], OPS + BACKEND, enum_ops.run([enum_ops.check_submit]), always=True)
+    eng.enumerator("ops-command-lines", ["C07"], OPS + BACKEND, enum_ops.run([enum_ops.check_submit, enum_ops.check_submit_history]), always=True)
     eng.enumerator("ops-command-lines-on-failure", ["C17"], OPS + BACKEND, enum_ops.run([enum_ops.check_submit]))
-    eng.enumerator("ops-state-tables", ["C08"], OPS + BACKEND, enum_ops.run([enum_ops.check_states]), always=True)
+    eng.enumerator("ops-state-tables", ["C08"], OPS + BACKEND, enum_ops.run([enum_ops.check_states, enum_ops.check_job_tables]), always=True)
     # C10: compile_script has no unbounded contract (order of option lines): this bounded stand-in decides that clause
     eng.enumerator("job-scripts-under-bash", ["C10"], OPS, enum_ops.run([enum_ops.check_scripts, enum_ops.check_logs]), always=True)
+    eng.enumerator("command-failure-kinds", ["C09", "C07", "C17"], ["gwf.backends.utils:call"] + OPS + BACKEND,
+                   enum_ops.run([enum_ops.check_call_failures]))
     eng.enumerator("option-resolution", ["C10"], ["gwf.scheduling:submit_backend"] + CALLBACKS,
                    enum_ops.run([enum_ops.check_option_resolution]))
     WF = [k for k in eng.contracts if k.startswith(("gwf.workflow:", "gwf.utils:", "gwf.core:_check_path", "gwf.core:_has_nonprintable"))]
